@@ -112,11 +112,12 @@ class RegScenario:
                         return verdict
                     r = await self.app.register(PREFIXES[pi], lambda *a, **k: None, route_validator)
                 else:
-                    # legacy unregister deletes the route entry first: give it one
-                    try:
-                        self.app.set_interest_filter(PREFIXES[pi], lambda *a: None)
-                    except ValueError:
-                        pass
+                    # with and without a callback entry for the prefix (a prefix registered with register(name, None) has none)
+                    if (i + pi) % 2 == 0:
+                        try:
+                            self.app.set_interest_filter(PREFIXES[pi], lambda *a: None)
+                        except ValueError:
+                            pass
                     r = await self.app.unregister(PREFIXES[pi])
             self.results[i] = ('ret', r)
         except BaseException as e:  # noqa
